@@ -17,4 +17,5 @@ INVARIANT FramingTruthful
 INVARIANT ReceiverFollowsRfc
 INVARIANT CloseAgree
 INVARIANT NoHang
+POSTCONDITION PrintExhibits
 CHECK_DEADLOCK FALSE
